@@ -53,6 +53,9 @@ type cacheModel struct {
 	asked    map[uint64]bool
 	maxSeen  int
 	resets   int
+	// I7 (weak): patterns that went through the engine while this client cache
+	// was installed; its loader must have been asked at least once by then
+	engineUses map[uint64]bool
 }
 
 func newCacheModel(x *exec, capacity int) *cacheModel {
@@ -86,6 +89,17 @@ func (m *cacheModel) load(key interface{}) (interface{}, error) {
 			s.onEvent(evLoadMid, kh, nil)
 		}
 	}
+	if e != nil && e.PanicLoad {
+		e.PanicLoad = false
+		e.LoadPanicked = true
+		if s != nil {
+			if s.mode == 'H' || s.who() < 0 {
+				m.badLoads[kh]++
+			}
+			s.onEvent(evLoadErr, kh, nil)
+		}
+		panic(errInjected) // a client loader built on MustCompile, say
+	}
 	if e != nil && e.FailLoad {
 		e.FailLoad = false
 		e.LoadFailed = true
@@ -114,6 +128,27 @@ func (m *cacheModel) load(key interface{}) (interface{}, error) {
 		s.onEvent(evLoadOK, kh, nil) // in mode G the scheduler counts it
 	}
 	return re, nil
+}
+
+func (m *cacheModel) loaderUsed(string) {}
+
+// engineUse records a valid pattern that reached the cache through the engine
+// (matches / replace / Compile) and checks the weak invariant I7: a client who
+// installs a cache may expect the engine to consult THAT cache. Not demanded
+// for every pattern (a memo in front of the cache is legitimate), but after
+// three distinct new patterns the installed cache's loader must have been
+// called at least once.
+func (m *cacheModel) engineUse(step int, pattern string) {
+	if m.capacity < 0 || m.x.sim.mode != 'H' {
+		return
+	}
+	if m.engineUses == nil {
+		m.engineUses = map[uint64]bool{}
+	}
+	m.engineUses[scn.HashString(pattern)] = true
+	if len(m.engineUses) >= 3 && len(m.okLoads) == 0 && len(m.badLoads) == 0 {
+		m.x.viol("cache-bypassed", "cache-bypassed", fmt.Sprintf("a client cache is installed as RegexpCache and %d distinct patterns have gone through matches()/replace()/Compile, yet its loader was never asked: the engine does not consult the installed cache", len(m.engineUses)), step)
+	}
 }
 
 // check verifies the state invariants; it is called after every step of a
@@ -156,10 +191,22 @@ func (m *cacheModel) check(step int) {
 }
 
 // opGet performs one get and checks its postconditions (I1, I3).
-func (m *cacheModel) opGet(step int, e *Env, key string, fail bool) string {
+func (m *cacheModel) opGet(step int, e *Env, key string, fail, panicLoad bool) string {
 	x := m.x
 	e.FailLoad = fail && m.capacity >= 0
+	e.PanicLoad = panicLoad && m.capacity >= 0
 	v, err, ab := guardedGet(m.h.get, key)
+	m.loaderUsed(key)
+	if e.LoadPanicked {
+		// the caller recovers from its own loader's panic; the cache must stay usable
+		e.PanicLoad, e.LoadPanicked, e.FailLoad, e.LoadFailed = false, false, false, false
+		x.countFault("load-panic")
+		return "loader-panicked"
+	}
+	e.PanicLoad = false
+	if ab != "" && strings.Contains(ab, "race-cutoff") {
+		return "cut-off"
+	}
 	if ab != "" {
 		kind := "no-progress"
 		if strings.Contains(ab, "deadlock") {
@@ -323,6 +370,9 @@ func (m *cacheModel) opRegex(step int, st scn.Step, owner int32) string {
 	if st.Src == "nodeset" {
 		subj = "//s"
 	}
+	if st.Src == "emptyset" {
+		subj = "//nothing" // an empty node-set: its string value is ""
+	}
 	var text string
 	switch st.Op {
 	case "matches":
@@ -342,6 +392,9 @@ func (m *cacheModel) opRegex(step int, st scn.Step, owner int32) string {
 		return "rejected"
 	}
 	if ex == nil {
+		if co.Aborted() && strings.Contains(co.Key(), "race-cutoff") {
+			return "cut-off"
+		}
 		if co.Aborted() {
 			x.viol("no-progress", "no-progress:compile", fmt.Sprintf("Compile(%q): %s", text, co.Key()), step)
 			return "abort"
@@ -357,6 +410,9 @@ func (m *cacheModel) opRegex(step int, st scn.Step, owner int32) string {
 	got, it := evaluate(ex, world.NewNav(doc, 0, owner))
 	if it != nil {
 		got = drain(it, 0)
+	}
+	if got.Aborted() && strings.Contains(got.Key(), "race-cutoff") {
+		return "cut-off"
 	}
 	if got.Aborted() {
 		kind := "no-progress"
@@ -377,16 +433,24 @@ func (m *cacheModel) opRegex(step int, st scn.Step, owner int32) string {
 		return "invalid"
 	}
 	re := regexp.MustCompile(st.K)
+	m.engineUse(step, st.K)
 	if st.Op == "replace" && !replInDomain(st.R, re.NumSubexp()) {
 		// a $n naming a group the pattern does not have: executed (it is legal
 		// history for later calls) but not judged
 		return "unjudged:" + got.Key()
 	}
+	subject := st.S
+	if st.Src == "emptyset" {
+		if st.Op == "matches" {
+			return "unjudged" // matches(empty node-set, p) answers "" by design (DESIGN 5.4)
+		}
+		subject = ""
+	}
 	var want Outcome
 	if st.Op == "matches" {
-		want = valueOutcome(re.MatchString(st.S))
+		want = valueOutcome(re.MatchString(subject))
 	} else {
-		want = valueOutcome(re.ReplaceAllString(st.S, expandRepl(st.R)))
+		want = valueOutcome(re.ReplaceAllString(subject, expandRepl(st.R)))
 	}
 	if got.Key() != want.Key() {
 		x.viol("regex-result", "regex-result:"+st.Op, fmt.Sprintf("Evaluate(%q) = %s, Go regexp gives %s", text, clip(got.Key()), clip(want.Key())), step)
@@ -513,8 +577,8 @@ func (x *exec) histC16() {
 		e := x.begin(MinBudget*5, 0)
 		switch st.Op {
 		case "get":
-			r := m.opGet(i, e, st.K, st.Fail)
-			x.tracef("step %d get %q fail=%v -> %s", i, st.K, st.Fail, r)
+			r := m.opGet(i, e, st.K, st.Fail, st.Panic)
+			x.tracef("step %d get %q fail=%v panic=%v -> %s", i, st.K, st.Fail, st.Panic, r)
 			keysSeen[st.K] = true
 		case "matchnodes":
 			r := m.opMatchNodes(i, st)
@@ -534,6 +598,9 @@ func (x *exec) histC16() {
 		x.end(e)
 		x.res.Stats.Ops++
 		x.res.Stats.OpsCompared++
+		if x.stop {
+			return // a lock was left held: do not touch the cache again
+		}
 		// invariants after every step, outside any simulated operation
 		x.cache.check(i)
 		if len(x.res.Viol) > 0 {
